@@ -9,6 +9,7 @@ CONSTANTS
   Dev_AdoptAckVerbatim = FALSE
   Dev_ServerIgnoresHello = FALSE
   Dev_ServerZeroIsLimit = TRUE
+  Dev_AbortLeaksChunks = FALSE
   Dev_NoSendLimit = FALSE
   Emit = FALSE
 INIT Init
